@@ -51,9 +51,11 @@ THEOREMS = [
     "binding_is_local", "cache_harmless_if_self_contained", "obs_types_header_self_contained",
     "c16_parser_cache_refuted", "c16_reparse_refuted", "check_history_zero_means_predicted",
     "plugins_resolve", "plugins_callable", "plugins_listing_complete",
+    "resolution_pure", "c16_negative_cache_refuted",
 ]
 
 REQ = "From Verif Require Import Model.C16_Purity."
+REQ_RES = "From Verif Require Import Model.C16_Resolve."
 HERE = os.path.dirname(os.path.abspath(__file__))
 WORKER = os.path.join(HERE, "c16_worker.py")
 EXDIR = os.path.join(core.REPO, "tests", "parsers", "example_files")
@@ -616,6 +618,9 @@ def run(ctx):
             else:
                 ctx.violation(rep, what="header['obs_types'] differs from both the specification and the parser_cache model")
 
+    # ---------------------------------------------------------------- E. plug-in resolution histories
+    resolution_histories(ctx, table, corpus)
+
     # ---------------------------------------------------------------- decide
     if not ok:
         def search():
@@ -652,6 +657,167 @@ def run(ctx):
     )
 
 
+# ----------------------------------------------------------------------------------------------- resolution histories
+PKGS = [("parser", "midgard.parsers"), ("writer", "midgard.writers"), ("fieldtype", "midgard.data.fieldtypes")]
+
+
+def resolution_histories(ctx, table, corpus):
+    """Resolution must be a function of (package, name): reference = ONE look-up per fresh interpreter; histories of
+    names / exists / get / load / parse_file over the three packages (each history in its own fresh interpreter) are
+    compared inside Coq with the state machine of Model/C16_Resolve.v (check_resolution)."""
+    rng, quick = ctx.rng, ctx.quick()
+    files = {k: sorted(table[kind]["files"]) for k, (kind, _) in enumerate(PKGS)}
+    listed = {k: [r["name"] for r in table[kind]["rows"]] for k, (kind, _) in enumerate(PKGS)}
+    allnames = sorted({n for k in files for n in files[k]} | {n for k in listed for n in listed[k]})
+    nid = {n: i for i, n in enumerate(allnames)}
+    multi = sorted(n for n in allnames if sum(n in files[k] for k in files) > 1)
+    ctx.count("resolve:names_in_several_packages", len(multi))
+
+    # reference set: every file of every package in its own package, shared names in all packages, wrong-package probes
+    U = [(k, n) for k in files for n in files[k]]
+    U += [(k, n) for n in multi for k in files if (k, n) not in U]
+    singles = [n for n in listed[0] if n not in multi]
+    probes = singles if not quick else rng.sample(singles, min(8, len(singles)))
+    for forced in ("vlbi_source_names", "sp3"):
+        if forced in singles and forced not in probes:
+            probes.append(forced)
+    U += [(k, n) for n in probes for k in (1, 2)]
+    U = sorted(set(U))
+
+    def one(kn):
+        k, n = kn
+        return worker("resolve", {"ops": [{"op": "get", "pkg": PKGS[k][1], "name": n}]}, timeout=300)
+
+    t0 = time.time()
+    ref = pmap(one, U)
+    has = {}
+    for (k, n), r in zip(U, ref):
+        if isinstance(r, dict) or "found" not in r[0]:
+            # loading itself breaks in a fresh interpreter: the plug-in table (A) reports listed names; others count as absent
+            has[(k, n)] = False
+            if n in listed[k]:
+                ctx.violation({"kind": "resolution_reference", "package": PKGS[k][1], "name": n, "result": r},
+                              what=f"plugins.get({PKGS[k][1]!r}, {n!r}) fails in a fresh interpreter: {str(r)[:160]}")
+        else:
+            has[(k, n)] = bool(r[0]["found"])
+    ctx.log(f"resolution reference: {len(U)} single look-ups in fresh interpreters in {time.time() - t0:.0f}s")
+
+    # parse jobs usable in the histories: parsers with shared names first, then a sample
+    pj = [j for j in corpus if j["parser"] in multi or j["parser"] in probes]
+    rest = [j for j in corpus if j not in pj and os.path.getsize(j["file"]) < HEAVY_BYTES]
+    pj += rng.sample(rest, min(6 if quick else 30, len(rest)))
+    jid = {id(j): i for i, j in enumerate(pj)}
+
+    def op_names(k):
+        return {"op": "names", "pkg": PKGS[k][1], "_k": k}
+
+    def op_look(kind, k, n):
+        return {"op": kind, "pkg": PKGS[k][1], "name": n, "_k": k, "_n": n}
+
+    def op_parse(j):
+        return {"op": "parse_file", "parser": j["parser"], "file": j["file"], "args": j["args"], "_j": jid[id(j)]}
+
+    hists = []
+    all_gets = [op_look("get", k, n) for k, n in U]
+    for perm in itertools.permutations(range(3)):
+        tail = list(all_gets)
+        rng.shuffle(tail)
+        hists.append(("list_then_get", [op_names(k) for k in perm] + tail + [op_names(k) for k in perm]))
+    # wrong package first, then the owning package, for every shared / probed name
+    for kind in ("exists", "get", "load"):
+        ops = []
+        for n in multi + probes:
+            owners = [k for k in files if has.get((k, n))]
+            wrong = [k for k in files if (k, n) in has and not has[(k, n)]]
+            rng.shuffle(wrong)
+            ops += [op_look(kind, k, n) for k in wrong] + [op_look("get", k, n) for k in owners]
+        ops += [op_parse(j) for j in pj] + [op_names(k) for k in range(3)]
+        hists.append(("wrong_package_first:" + kind, ops))
+    # one listing first, then everything the other packages share with it
+    for k0 in range(3):
+        ops = [op_names(k0)]
+        for n in multi + probes:
+            ops += [op_look(rng.choice(["get", "exists", "load"]), k, n) for k in files if k != k0 and (k, n) in has]
+        ops += [op_parse(j) for j in pj]
+        ops += [op_names(k) for k in range(3) if k != k0]
+        hists.append((f"names({PKGS[k0][0]})_first", ops))
+    pool = ([lambda: op_names(rng.randrange(3))] * 2 + [lambda: op_look(rng.choice(["get", "exists", "load"]), *rng.choice(U))] * 10
+            + [lambda: op_parse(rng.choice(pj))] * (2 if pj else 0))
+    for _ in range(10 if quick else 80):
+        hists.append(("random", [rng.choice(pool)() for _ in range(rng.randrange(20, 60))]))
+    for label, _ in hists:
+        ctx.count("resolve:" + label.split(":")[0])
+
+    strip = lambda o: {k: v for k, v in o.items() if not k.startswith("_")}
+    t0 = time.time()
+    results = pmap(lambda h: worker("resolve", {"ops": [strip(o) for o in h[1]]}, timeout=1200), hists)
+    ctx.log(f"resolution histories: {len(hists)} fresh interpreters, {sum(len(h[1]) for h in hists)} operations in {time.time() - t0:.0f}s")
+
+    dints = {}
+    dig_id = lambda d: dints.setdefault(d, len(dints))
+    has_t = emit.lst(emit.pair(emit.z(k), emit.z(nid[n]), emit.z(1 if v else 0)) for (k, n), v in sorted(has.items()))
+    files_t = emit.lst(emit.pair(emit.z(k), emit.lst(emit.z(nid[n]) for n in sorted(files[k], key=nid.get))) for k in files)
+    jobs_t = emit.lst(emit.pair(emit.z(i), emit.pair(emit.pair("0", emit.z(nid[j["parser"]])), emit.z(dig_id(j["digest"])))) for i, j in enumerate(pj))
+
+    def op_term(o):
+        if o["op"] == "names":
+            return f"RNames {emit.z(o['_k'])}"
+        if o["op"] == "parse_file":
+            return f"RParse {emit.z(o['_j'])}"
+        return ("RExists" if o["op"] == "exists" else "RGet") + f" {emit.z(o['_k'])} {emit.z(nid[o['_n']])}"
+
+    def obs_term(r):
+        if "names" in r:
+            ids = sorted(nid.setdefault(n, len(nid)) for n in r["names"])
+            return "OList " + emit.lst(emit.z(i) for i in ids)
+        if "found" in r:
+            return "OBool " + emit.b(r["found"])
+        if "digest" in r:
+            return f"ODig {emit.z(dig_id(r['digest']))}"
+        return "ODig (-5)"                 # any other exception: never what the specification predicts
+
+    terms, meta = [], []
+    for (label, ops), res in zip(hists, results):
+        if isinstance(res, dict) or len(res) != len(ops):
+            ctx.violation({"kind": "resolve_worker_failed", "history": label, "error": str(res)[:400]},
+                          what="a resolution-history interpreter crashed", found=False)
+            continue
+        terms.append("check_resolution (" + ", ".join([has_t, files_t, jobs_t, emit.lst(op_term(o) for o in ops),
+                                                       emit.lst("(" + obs_term(r) + ")" for r in res)]) + ")")
+        meta.append((label, ops, res))
+        ctx.case(("RES", label, json.dumps([strip(o) for o in ops])[:20000]), nontrivial=True,
+                 sample={"resolution_history": label, "first_ops": [strip(o) for o in ops[:4]]} if len(ctx.samples) < 6 else None)
+    vs = ctx.coq_cases(terms, REQ_RES)
+    reported = 0
+    for (label, ops, res), v in zip(meta, vs):
+        if v is None or len(v) != len(ops):
+            ctx.violation({"broken": "resolution shard did not evaluate in Coq", "errors": [e[1][-800:] for e in ctx.last_coq_errors[:1]]},
+                          what="correspondence (model evaluation) failed", found=False)
+            continue
+        bad = [i for i, c in enumerate(v) if c != 0]
+        if not bad or reported >= 3:
+            continue
+        reported += 1
+        i = bad[0]
+        target = strip(ops[i])
+        # smallest failing input: one earlier operation + the failing one, each pair in its own fresh interpreter
+        earlier = []
+        for o in ops[:i]:
+            if strip(o) not in earlier:
+                earlier.append(strip(o))
+        alone = worker("resolve", {"ops": [target]}, timeout=600)
+        pairs = pmap(lambda e: worker("resolve", {"ops": [e, target]}, timeout=600), earlier[-48:])
+        culprit = next((e for e, r in zip(earlier[-48:], pairs) if isinstance(r, list) and isinstance(alone, list) and r[-1] != alone[0]), None)
+        rep = {"kind": "resolution_history", "history": label, "failing_op": target, "observed_in_history": res[i],
+               "same_op_alone_in_fresh_interpreter": alone[0] if isinstance(alone, list) else alone,
+               "minimal_history": [culprit, target] if culprit else None,
+               "ops_before": [strip(o) for o in ops[:i]][-60:],
+               "how": "PYTHONPATH=<repo>:/verif python harness/drivers/c16_worker.py resolve '{\"ops\": <minimal_history>}'  vs  '{\"ops\": [<failing_op>]}'"}
+        ctx.violation(rep, what=(f"plug-in resolution depends on the history: {target} answers {res[i]} "
+                                 + (f"after {culprit}" if culprit else f"in history {label}")
+                                 + f", but {alone[0] if isinstance(alone, list) else alone} alone in a fresh interpreter"))
+
+
 def replay(ctx, path):
     rep = json.load(open(path))
     print(json.dumps({k: v for k, v in rep.items() if k not in ("ops",)}, indent=1)[:4000])
@@ -666,6 +832,10 @@ def replay(ctx, path):
             print(("same    " if same else "DIFFERS ") + f"instance {o['i']} {o['parser']}({os.path.basename(o['file'])}) in-history={o.get('digest')} fresh={fr.get('digest')} {o.get('exc', '')}")
         print("reproduced" if bad else "not reproduced")
         return 1 if bad else 0
+    if rep.get("kind") == "resolution_history":
+        for ops in ([rep["failing_op"]], rep.get("minimal_history") or (rep["ops_before"] + [rep["failing_op"]])):
+            print(len(ops), "op(s) ->", worker("resolve", {"ops": ops})[-1])
+        return 0
     if rep.get("kind") == "header_history":
         d = os.path.join(ctx.work, "hdr")
         os.makedirs(d, exist_ok=True)
